@@ -196,7 +196,7 @@ def assemble(ctx, catalogue, seqs):
             cases.append({"id": n, "fmt": f, "names": ns})
     ctx.cov["sequences_exported_by_tlc"] = len(seqs)
     rng = random.Random(ctx.seed)
-    extra = ctx.pick(800, 10000)
+    extra = ctx.pick(800, 5000)
     for k in range(extra):
         ln = rng.randint(3, 8)
         ns, depth = [], 0
